@@ -107,3 +107,37 @@ Theorem tagged_unknown c d t :
 Proof. intros H1 H2. unfold structure_tagged. rewrite H1, H2. destruct (tg_default c); reflexivity. Qed.
 
 End TP.
+
+(* ---- the tag key and forbid_extra_keys (C10) ---- *)
+Section TagExtra.
+Variable V : Type.
+Variable veq : V -> V -> bool.
+
+Lemma assoc_remove_key_other {B} (d : list (N * B)) k k' : k' <> k -> assoc (remove_key d k) k' = assoc d k'.
+Proof.
+  intros Hne. induction d as [|[a v] d IH]; cbn; [reflexivity|].
+  destruct (N.eqb a k) eqn:Eak.
+  - apply N.eqb_eq in Eak. subst a. destruct (N.eqb k k') eqn:E; [apply N.eqb_eq in E; congruence | exact IH].
+  - cbn. destruct (N.eqb a k'); [reflexivity | exact IH].
+Qed.
+
+Lemma assoc_remove_key_same {B} (d : list (N * B)) k : assoc (remove_key d k) k = None.
+Proof.
+  induction d as [|[a v] d IH]; cbn; [reflexivity|]. destruct (N.eqb a k) eqn:E; [exact IH|]. cbn. now rewrite E.
+Qed.
+
+(* whichever member hook a tagged union hands the payload to when extra keys are forbidden, the dict it hands over is the
+   payload without the tag key and with every other key untouched: the member's own extra-key check sees exactly the
+   payload's other keys, never the tag *)
+Theorem tag_key_is_not_an_extra (c : tcfg V) (d d' : list (N * V)) (m : N) :
+  tg_forbid c = true -> assoc d (tg_name c) <> None ->
+  structure_tagged V veq c d = Ok (m, d') ->
+  assoc d' (tg_name c) = None /\ forall k, k <> tg_name c -> assoc d' k = assoc d k.
+Proof.
+  intros Hf Ht H. unfold structure_tagged in H. rewrite Hf in H. unfold dict_pop in H.
+  destruct (assoc d (tg_name c)) as [t|] eqn:Ea; [|contradiction].
+  assert (X : d' = remove_key d (tg_name c)).
+  { destruct (tg_default c); destruct (member_of_tag V veq c t); inversion H; reflexivity. }
+  subst d'. split; [apply assoc_remove_key_same | intros k Hk; now apply assoc_remove_key_other].
+Qed.
+End TagExtra.
